@@ -117,7 +117,8 @@ func (r *Report) Finish() int {
 			fresh = append(fresh, f)
 		}
 	}
-	// one replay file per distinct signature
+	// one replay file per distinct signature (files of earlier runs are removed)
+	os.RemoveAll(filepath.Join(VerifDir(), "replays", r.Property))
 	seen := map[string]bool{}
 	var lines []string
 	for _, f := range fresh {
